@@ -153,6 +153,10 @@ def run(chk):
     fams.append(("constant-sub-cone-gating-the-output", build({"a": ("input", []), "k1": ("1", []), "k0": ("0", []), "en": ("xor", ["k1", "k0"]), "o": ("and", ["a", "en"])}, outputs=["o"])))
     fams.append(("constant-sub-cone-two-levels", build({"a": ("input", []), "b": ("input", []), "k1": ("1", []), "k0": ("0", []), "e1": ("nor", ["k1", "k0"]), "e2": ("not", ["e1"]), "g": ("or", ["a", "e2"]),
                                                         "o": ("xor", ["g", "b"])}, outputs=["o"])))
+    # wide gates of different families over the same nets (the fan-in limiting in front of the decomposition builds helper gates for each)
+    for fa_, fb_ in (("and", "or"), ("nand", "xor")):
+        I_ = ("input", [])
+        fams.append((f"wide-gates-over-the-same-nets::{fa_}-and-{fb_}", build({"x": I_, "y": I_, "z": I_, "p": (fa_, ["x", "y", "z"]), "q": (fb_, ["x", "y", "z"]), "o": ("xor", ["p", "q"])}, outputs=["o"])))
     fams.append(("tie-cell-operand-of-the-output", build({"a": ("input", []), "k1": ("1", []), "o": ("and", ["a", "k1"])}, outputs=["o"])))
     n = 0
     multi_out = [
